@@ -23,7 +23,7 @@ COMPONENTS = {"real": ["mofun.replace_pattern_in_structure", "Atoms.extend/exten
 ASSUMPTIONS = ["structure and patterns of one world agree per term kind on carrying coefficient tables (compatibility as in the quantifier)",
                "positions of inserted atoms are not judged here (C05); they are identified by element + nearest predicted place",
                "histories whose selected matches overlap in removed atoms are left to C07"]
-NRUNS = {"quick": 1200, "thorough": 30000}
+NRUNS = {"quick": 6000, "thorough": 80000}
 MUST_REACH = ["replacements_checked", "pattern_terms_inserted", "retained_atoms_retyped", "bystander_terms_checked", "chained_replacements", "restarts", "superseded_by_pattern_terms"]
 
 
